@@ -8,6 +8,7 @@ pub mod c06;
 pub mod c07;
 pub mod c08;
 pub mod c08_blocks;
+pub mod c09;
 pub mod c10;
 pub mod c11;
 pub mod c12;
@@ -35,6 +36,7 @@ pub fn registry() -> Vec<PropDef> {
         PropDef { id: "C06", run: c06::run, replay: c06::replay },
         PropDef { id: "C07", run: c07::run, replay: c07::replay },
         PropDef { id: "C08", run: c08::run, replay: c08::replay },
+        PropDef { id: "C09", run: c09::run, replay: c09::replay },
         PropDef { id: "C10", run: c10::run, replay: c10::replay },
         PropDef { id: "C11", run: c11::run, replay: c11::replay },
         PropDef { id: "C12", run: c12::run, replay: c12::replay },
